@@ -84,6 +84,26 @@ func genC03(r *gen.Rand) *C03Case {
 	}
 	depth := r.Range(1, 4)
 	root := r.Pick("a", "svc", "app")
+	if r.Chance(0.12) {
+		// unusual but legal names: spaces, unicode, characters that mean
+		// something to a shell or to a glob
+		root = r.Pick("svc[1]", "app (x)", "cfg-é", "q?x", "a+b", "x{y}", "tilde~", "per%cent", "co,mma", "eq=ual",
+			strings.Repeat("L", 246), strings.Repeat("n", 244)) // names near NAME_MAX: name + a longer extension does not fit
+		c.Shape = append(c.Shape, "odd-name")
+		if len(root) > 200 {
+			depth = 1 // the base file itself must still fit into a directory entry
+			exts = []string{"yaml", "json", "yml"}
+		}
+		if root == "svc[1]" || root == "q?x" {
+			// a neighbour that a pattern reading of the name would match instead
+			put(filepath.Join(dir, strings.NewReplacer("[1]", "1", "?", "z").Replace(root)+".yaml"), map[string]any{"wrong_neighbour": true})
+		}
+	}
+	if r.Chance(0.06) && dir == c03Dir {
+		dir = c03Dir + "/rel[2024]"
+		w.Dirs = append(w.Dirs, dir)
+		c.Shape = append(c.Shape, "odd-directory")
+	}
 	comps := []string{"b", "c", "prod", "eu"}
 	gen.Shuffle(r, comps)
 	if r.Chance(0.15) {
@@ -633,6 +653,11 @@ func c03Variant(r *gen.Rand, c *C03Case, name string) *C03Case {
 		for i, f := range n.World.Files {
 			if strings.HasSuffix(f.Path, ".txt") || strings.HasSuffix(f.Path, ".bak") || strings.Contains(f.Path, "unrelated") {
 				continue
+			}
+			if len(f.Docs) > 0 {
+				if m, ok := f.Docs[0].V.(map[string]any); ok && m["wrong_neighbour"] != nil {
+					continue // not part of the chain
+				}
 			}
 			chain = append(chain, i)
 		}
